@@ -103,6 +103,18 @@ DropFlagGroups(s, from, fuel) ==
 
 StripFlags(s) == DropFlagGroups(DropFlagMarks(s, 1), 1, 50)
 
+\* The loop of the second pass has no bound in the code.  Its variant: every iteration either moves
+\* the search position forward (escaped look-alike) or removes a flag group (the text gets shorter),
+\* so it runs at most Len(s) + 1 times.  LoopRuns counts the iterations (fuel as above).
+RECURSIVE LoopRuns(_, _, _)
+LoopRuns(s, from, fuel) ==
+    IF s = "CRASH" \/ fuel = 0 THEN 0
+    ELSE LET m == FirstFlagMatch(s, from, ":") IN
+         IF m[1] = 0 THEN 0
+         ELSE IF IsEscaped(s, m[1]) THEN 1 + LoopRuns(s, m[2], fuel - 1)
+         ELSE 1 + LoopRuns(RemoveGroup(s, m[1], m[2], FALSE), m[1], fuel - 1)
+StripFlagsRuns(s) == LoopRuns(DropFlagMarks(s, 1), 1, 50)
+
 \* removeOutermostNonCapturingGroup
 StripOuterGroup(s) ==
     IF s = "CRASH" THEN s
